@@ -241,7 +241,9 @@ func c09Oracle(info *runInfo, res *verifsim.Result) {
 
 	// Alive: in populations without injected faults nothing may stop the task
 	// or its listener before the stop.
-	if !strings.Contains(info.plan.Class, "timeouts") {
+	// (the timeout population injects at most 3 consecutive receive timeouts, which
+	// must be survived: the liveness rules apply there too)
+	{
 		for i := range h.ev {
 			e := &h.ev[i]
 			if e.K == "task.exit" && taskIface(e.S) == ifn && (stopSeq == 0 || e.Seq < stopSeq) {
